@@ -100,6 +100,8 @@ class Interp:
                 r = h(self, e, ins)
                 if r is not None:
                     return r
+            if nm in ("isinf", "isnan", "isposinf", "isneginf") and anysym:
+                return [np.zeros(tuple(v.aval.shape), dtype=bool) for v in e.outvars]   # generic point: no NaN/inf
             if nm == "inv" and len(ins) == 1 and len(e.outvars) == 1:
                 return [batched(inv_sym, self.sym(ins[0]), 2)]
             if nm == "det" and len(ins) == 1 and len(e.outvars) == 1:
